@@ -121,21 +121,21 @@ fn candidates(focus: F2) -> &'static Vec<u32> {
         let all: Vec<&FnDesc> = c.funcs.iter().filter(|d| simple_sig(d)).collect();
         let ids = |p: &dyn Fn(&FnDesc) -> bool| -> Vec<u32> { all.iter().filter(|d| p(d)).map(|d| d.id).collect() };
         let plain = |d: &FnDesc| !d.is_result() && !d.cache_if && !d.invalidate_on;
-        m.insert("C01", ids(&|d| plain(d) && matches!(d.family, "grid" | "tlru" | "edge" | "tmpl")));
-        m.insert("C03", ids(&|d| plain(d) && d.limit.is_none() && d.ttl.is_none() && d.max_memory.is_none() && matches!(d.family, "grid" | "concu")));
+        m.insert("C01", ids(&|d| plain(d) && matches!(d.family, "grid" | "tlru" | "edge" | "tmpl" | "ret")));
+        m.insert("C03", ids(&|d| plain(d) && d.limit.is_none() && d.ttl.is_none() && d.max_memory.is_none() && matches!(d.family, "grid" | "concu" | "ret")));
         m.insert("C04", ids(&|d| plain(d) && d.limit.is_some() && matches!(d.family, "grid" | "tlru" | "conc" | "edge" | "bulk")));
-        m.insert("C05", ids(&|d| plain(d) && d.max_memory.is_some() && matches!(d.family, "grid" | "conc" | "edge")));
+        m.insert("C05", ids(&|d| plain(d) && d.max_memory.is_some() && matches!(d.family, "grid" | "conc" | "edge" | "memtag")));
         m.insert("C06", ids(&|d| plain(d) && d.ttl.is_some() && matches!(d.family, "grid" | "tlru" | "conc" | "edge")));
-        m.insert("C07", ids(&|d| plain(d) && matches!(d.effective_policy(), Policy::Fifo | Policy::Lru) && (d.limit.is_some() || d.max_memory.is_some()) && matches!(d.family, "grid" | "bulk")));
+        m.insert("C07", ids(&|d| plain(d) && matches!(d.effective_policy(), Policy::Fifo | Policy::Lru) && (d.limit.is_some() || d.max_memory.is_some()) && matches!(d.family, "grid" | "bulk" | "memtag")));
         m.insert(
             "C08",
             ids(&|d| plain(d) && matches!(d.effective_policy(), Policy::Lfu | Policy::Arc | Policy::Tlru) && d.flavour != Flavour::Thread && d.limit.is_some() && d.ttl != Some(1) && matches!(d.family, "grid" | "tlru")),
         );
-        m.insert("C09", ids(&|d| d.family == "res" || (d.family == "tmpl" && d.is_result())));
+        m.insert("C09", ids(&|d| d.family == "res" || (matches!(d.family, "tmpl" | "ret") && d.is_result())));
         m.insert("C10", ids(&|d| d.family == "cif" || (d.family == "inv" && d.cache_if)));
         m.insert("C11", ids(&|d| d.family == "inv"));
-        m.insert("C12", ids(&|d| d.flavour != Flavour::Thread && matches!(d.family, "reg" | "conc" | "concu" | "depg" | "oddname")));
-        m.insert("C13", ids(&|d| d.flavour != Flavour::Thread && ((matches!(d.family, "reg" | "oddname")) || (d.family == "conc" && d.ttl.is_none()) || (plain(d) && matches!(d.family, "grid" | "bulk") && (d.limit.is_some() || d.max_memory.is_some()) && d.ttl.is_none()))));
+        m.insert("C12", ids(&|d| d.flavour != Flavour::Thread && matches!(d.family, "reg" | "conc" | "concu" | "depg" | "oddname" | "regr")));
+        m.insert("C13", ids(&|d| d.flavour != Flavour::Thread && ((matches!(d.family, "reg" | "oddname")) || (d.family == "conc" && d.ttl.is_none()) || (plain(d) && matches!(d.family, "grid" | "bulk" | "memtag") && (d.limit.is_some() || d.max_memory.is_some()) && d.ttl.is_none()))));
         m.insert("C15", ids(&|d| d.flavour != Flavour::Thread && matches!(d.family, "reg" | "grid" | "concu" | "res" | "inv" | "oddname")));
         m.insert("C16", ids(&|_| true));
         m.insert("C19", c.funcs.iter().filter(|d| d.gates == 0).map(|d| d.id).collect());
